@@ -7,6 +7,7 @@ import (
 	"encoding/json"
 	"fmt"
 	"math/rand"
+	"os"
 	"sort"
 	"strings"
 	"time"
@@ -1390,9 +1391,17 @@ func c02EndOfStream(c *lib.Ctx, modelOK bool) {
 				r.Fail(lib.Failure{Kind: "tie", Key: "harness/handshake", What: err.Error()})
 				return
 			}
+			// (the os-backed server is asked about the process directory, which lies in the scratch area — not about
+			// the host's root; the request server's handlers work on a tree in memory)
+			statPath := "/"
+			if server == "os" {
+				if wd, err := os.Getwd(); err == nil {
+					statPath = wd
+				}
+			}
 			var stream []byte
 			for i := 0; i < depth; i++ {
-				stream = append(stream, wire.Req(wire.Stat, uint32(i+1), wire.B{}.Str("/"))...)
+				stream = append(stream, wire.Req(wire.Stat, uint32(i+1), wire.B{}.Str(statPath))...)
 			}
 			srv.Send(stream)
 			srv.CloseInput()
